@@ -32,6 +32,7 @@ func init() {
 			"every receipt renumbered (out of range, every other in-range block with and without blockHash) / swapped transactionIndex / dropped / duplicated, every trace renumbered (likewise) / other transactionPosition, blockHash and transactionHash of every log / receipt / trace removed, empty (0x), 31 bytes, another fork's hash, and short blockHash on the first item of a block combined with a foreign hash on each later item (the log hash operators: quick tier on the uncached URL only), / dropped / duplicated, " +
 			"body truncated at 0,1,len/2,len-1,inside a string, HTTP status {301,400,429,500,503} x {valid JSON body, text body}, transport error, object<->array, top-level null, empty batch; operators yielding a byte-identical response are enumerated once; " +
 			"the same families for Client.Latest and Client.Hash (incl. a block beyond the head); thorough: 7 more ranges and ALL PAIRS of corruptions (same or different exchanges, applied in enumeration order; the combined bhash2, the transactionHash and the missing/empty log blockHash operators are not paired) for every plan on ranges (3,2),(1,3),(5,3) uncached and (3,2) cached, and for Latest and Hash(4). " +
+			"after every single-corruption case (and uncorrupted beyond-head case) that FAILED on a stateful client (cached URL with headers/blocks, Client.Latest) the call is repeated on the same client with the node answering the same corrupted answers and with honest answers; the repeated call is judged against its own responses, or, where it fetched nothing itself, against the answer the cache took it from. " +
 			"A case is non-trivial when every corruption of the case was reached and changed the response (baselines are trivial unless the range extends beyond the head).",
 		Assumptions: []string{
 			"an error object with code 0 is not an error object (not enumerated)",
@@ -173,7 +174,7 @@ func caseString(cs *Case) string {
 }
 
 // runCase evaluates one corrupted case.
-func runCase(c *fw.Ctx, cs *Case) {
+func runCase(c *fw.Ctx, cs *Case) *outcome {
 	cls, fs, out, m := evalCase(cs)
 	if m.txHashChange > 0 && len(fs) == 0 {
 		c.Count("note/tx-hash-of-the-block-response-replaced-by-an-items-transactionHash", 1)
@@ -196,8 +197,38 @@ func runCase(c *fw.Ctx, cs *Case) {
 	if len(cs.Ops) > 1 {
 		c.Count("pairs", 1)
 	}
+	if cs.Follow != "" {
+		c.Count("follow/"+cs.Follow, 1)
+		c.Count("follow/"+cs.Follow+"/"+cls, 1)
+	}
 	c.Sample(cs)
 	report(c, cs, cls, fs)
+	return out
+}
+
+// followUps: "a rejected answer leaves no trace in the client". After a call that
+// failed, the same call is repeated on the same client, once with the node giving the same
+// corrupted answers and once with honest answers; each repetition is one more case.
+// Only clients with state are concerned: the cached URL on plans that fetch headers or
+// blocks (segment cache), and Client.Latest (latest-block cache).
+func followUps(c *fw.Ctx, cs *Case, out *outcome) {
+	if out.err == nil || out.panicked != nil || cs.Follow != "" {
+		return
+	}
+	switch cs.Call {
+	case "latest":
+	case "get":
+		if !cs.Cached || !out.flags.hashed() {
+			return
+		}
+	default:
+		return
+	}
+	for _, f := range []string{"same", "good"} {
+		fc := *cs
+		fc.Follow = f
+		runCase(c, &fc)
+	}
 }
 
 // baseline runs the uncorrupted call and returns the operators applicable to it.
@@ -216,6 +247,7 @@ func baseline(c *fw.Ctx, cs *Case, owner bool, expectOK bool) []Op {
 			c.Count("op/none(beyond-head)", 1)
 		}
 		report(c, cs, "baseline:"+cls, fs)
+		followUps(c, cs, out)
 		if expectOK && (out.err != nil || out.panicked != nil) {
 			c.HarnessError("baseline %s failed: err=%v panic=%v", caseString(cs), out.err, out.panicked)
 		}
@@ -271,7 +303,7 @@ func runConfig(c *fw.Ctx, base Case, expectOK, pairs bool) {
 		}
 		cs := base
 		cs.Ops = []Op{op}
-		runCase(c, &cs)
+		followUps(c, &cs, runCase(c, &cs))
 	}
 	if !pairs {
 		return
